@@ -39,15 +39,20 @@ Shapes ==
             methods |-> {[n |-> "Name", v |-> VS(<<109>>), ptr |-> FALSE], [n |-> "PName", v |-> VS(<<112>>), ptr |-> TRUE],
                          [n |-> "AName", v |-> VS(<<97>>), ptr |-> TRUE]}],
     \* embedded by pointer: the promoted fields exist only while the embedded pointer is set (object flag embnil)
-    S7 |-> [fields |-> <<[n |-> "Base", emb |-> "Base"], [n |-> "K", v |-> VI(88)]>>, methods |-> {}] ]
+    S7 |-> [fields |-> <<[n |-> "Base", emb |-> "Base"], [n |-> "K", v |-> VI(88)]>>, methods |-> {}],
+    \* Cust (pointer receiver) hands out a pointer INTO its receiver; two instances (alt) differ in what it points at.  What
+    \* printing that pointer gives is not stated (never judged), but a result once obtained must stay what it was
+    S9 |-> [fields |-> <<[n |-> "X", v |-> VI(91)]>>, methods |-> {[n |-> "Cust", v |-> [t |-> "embedded", sh |-> "Base"], ptr |-> TRUE]}] ]
 ShapeNames == {"S1", "S2", "S3", "S4", "S5", "S6", "S7"}
 MapKinds == {"any", "mss", "msi"}
 \* objects: a struct value, a pointer to it, or a map of one of three Go map types
 Objects == {[k |-> "struct", sh |-> sn, ptr |-> p, embnil |-> FALSE] : sn \in ShapeNames, p \in BOOLEAN}
            \cup {[k |-> "struct", sh |-> "S7", ptr |-> p, embnil |-> TRUE] : p \in BOOLEAN}
+           \cup {[k |-> "struct", sh |-> "S9", ptr |-> p, embnil |-> FALSE, alt |-> a] : p \in BOOLEAN, a \in BOOLEAN}
            \cup {[k |-> "map", g |-> g] : g \in MapKinds}
+\* (the untyped map also has the keys "0" and "" -- never looked up themselves: an absent key must not fall back to them)
 MapVal(g, n) == CASE n = "X" -> (IF g = "mss" THEN VS(<<120>>) ELSE VI(8)) [] n = "Y" -> (IF g = "mss" THEN VS(<<121>>) ELSE VI(9)) [] OTHER -> Null
-AttrNames == {"X", "Y", "Z", "W", "Q", "K", "Name", "PName", "AName", "ARename", "hidden", "nosuch", "x", "name"} \cap NameSet    \* names are case-sensitive
+AttrNames == {"X", "Y", "Z", "W", "Q", "K", "Name", "PName", "AName", "ARename", "hidden", "nosuch", "x", "name", "Cust"} \cap NameSet    \* names are case-sensitive
 
 IsExported(n) == n \notin {"hidden"}
 
@@ -122,7 +127,8 @@ Bounded == Cardinality(DOMAIN memo) <= Cap + 1
 
 \* ---- emission: complete histories with the value every lookup must print ------------------------------
 View == hist            \* which victims were chosen is not observable: one history per lookup sequence
-Complete == Len(hist) = MaxLen /\ Determined(hist[MaxLen].obj, hist[MaxLen].n)
+\* (a history may also end in a Cust lookup: the joint render at the end gives it its meaning)
+Complete == Len(hist) = MaxLen /\ (Determined(hist[MaxLen].obj, hist[MaxLen].n) \/ hist[MaxLen].n = "Cust")
 Emit == Complete => PrintT(ToJson([prop |-> "C20", key |-> ToJson([i \in 1..Len(hist) |-> [obj |-> hist[i].obj, n |-> hist[i].n]]),
                                    tags |-> {"obj:" \o hist[i].obj.k : i \in 1..Len(hist)}, cap |-> Cap,
                                    ops |-> [i \in 1..Len(hist) |-> [obj |-> hist[i].obj, n |-> hist[i].n, any |-> ~Determined(hist[i].obj, hist[i].n),
